@@ -8,6 +8,13 @@
 //! thread-local registry.  With impl = "real", leaves and unary / map / array generics are the real impls of
 //! aldrin-core (`Option<Slot<N>>`, `Vec<..>`, `HashMap<String, ..>`, `u8`, `String`, ...) instead of hand-built IR.
 //!
+//! Generic custom types: a tuple expression `{k: "tuple", es: [..]}` (arity 1 ..= 4) is, with impl = "real", the
+//! REAL tuple impl of aldrin-core (core/src/impls/tuple.rs) over element slots - `(Elem<T, 0>, Elem<T, 1>)` for the
+//! T-th tuple of the universe, `Elem<T, P>` standing for the node that is element P of that tuple - and otherwise a
+//! slot with the hand-built layout struct std::TupleN { required field<i> @ i } whose LEXICAL ID is generic
+//! (`LexicalId::custom_generic("std", "TupleN", [element ids])`), i.e. not the one its layout alone would give.
+//! `es` is the only JSON array of the vectors that is a sequence; every other array is a set or an option.
+//!
 //! Per case:
 //!   I1 VIOLATION  panic in TypeId::compute_from_dyn / Introspection::from_dyn / serialize / deserialize
 //!   I2 VIOLATION  computing the id twice gives different ids
@@ -24,7 +31,7 @@
 //! usage: schema-ids run --vectors F [--pinned F] [--corrupt N]   |   schema-ids replay --file F
 use aldrin_core::introspection::{ir, BuiltInType, DynIntrospectable, Introspectable, Introspection, Layout, LexicalId, References};
 use aldrin_core::{Bytes, ObjectId, SerializedValue, ServiceId, ServiceUuid, TypeId, Value as AValue};
-use schema_driver::{canonical_set_string, guarded, read_ndjson, silence_panics, Args, Findings};
+use schema_driver::{canonical_string, guarded, read_ndjson, silence_panics, Args, Findings};
 use serde_json::{json, Value};
 use std::cell::RefCell;
 use std::collections::{BTreeMap, BTreeSet, HashMap, HashSet};
@@ -33,11 +40,29 @@ use uuid::Uuid;
 #[derive(Clone)]
 struct Node {
     layout: ir::LayoutIr,
+    /// the lexical id of the TYPE where it is not the one of its layout (generic custom types)
+    lex: Option<LexicalId>,
     refs: Vec<DynIntrospectable>,
 }
 
 thread_local! {
     static REG: RefCell<Vec<Node>> = const { RefCell::new(Vec::new()) };
+    /// tuple number -> the nodes of its elements
+    static ELEMS: RefCell<Vec<[usize; MAX_ARITY]>> = const { RefCell::new(Vec::new()) };
+}
+
+fn node_lexical_id(n: usize) -> LexicalId {
+    REG.with(|r| {
+        let r = r.borrow();
+        r[n].lex.unwrap_or_else(|| r[n].layout.lexical_id())
+    })
+}
+
+fn node_add_references(n: usize, references: &mut References) {
+    let refs = REG.with(|r| r.borrow()[n].refs.clone());
+    for d in refs {
+        references.add_dyn(d);
+    }
 }
 
 struct Slot<const N: usize>;
@@ -48,14 +73,34 @@ impl<const N: usize> Introspectable for Slot<N> {
     }
 
     fn lexical_id() -> LexicalId {
-        Self::layout().lexical_id()
+        node_lexical_id(N)
     }
 
     fn add_references(references: &mut References) {
-        let refs = REG.with(|r| r.borrow()[N].refs.clone());
-        for d in refs {
-            references.add_dyn(d);
-        }
+        node_add_references(N, references);
+    }
+}
+
+/// element P of tuple number T: whatever node the universe put there
+struct Elem<const T: usize, const P: usize>;
+
+impl<const T: usize, const P: usize> Elem<T, P> {
+    fn node() -> usize {
+        ELEMS.with(|e| e.borrow()[T][P])
+    }
+}
+
+impl<const T: usize, const P: usize> Introspectable for Elem<T, P> {
+    fn layout() -> ir::LayoutIr {
+        REG.with(|r| r.borrow()[Self::node()].layout.clone())
+    }
+
+    fn lexical_id() -> LexicalId {
+        node_lexical_id(Self::node())
+    }
+
+    fn add_references(references: &mut References) {
+        node_add_references(Self::node(), references);
     }
 }
 
@@ -86,6 +131,17 @@ with_slots!(real_map_string, N, HashMap<String, Slot<N>>);
 with_slots!(real_map_u8, N, HashMap<u8, Slot<N>>);
 with_slots!(real_map_u32, N, BTreeMap<u32, Slot<N>>);
 
+macro_rules! with_tuples {
+    ($($args:tt)*) => { table!($($args)*; 0 1 2 3 4 5 6 7 8 9 10 11 12 13 14 15 16 17 18 19 20 21 22 23 24 25 26 27 28 29 30 31); };
+}
+const TUPLES: usize = 32;
+const MAX_ARITY: usize = 4;
+// the real tuple impls of aldrin-core
+with_tuples!(real_tuple1, T, (Elem<T, 0>,));
+with_tuples!(real_tuple2, T, (Elem<T, 0>, Elem<T, 1>));
+with_tuples!(real_tuple3, T, (Elem<T, 0>, Elem<T, 1>, Elem<T, 2>));
+with_tuples!(real_tuple4, T, (Elem<T, 0>, Elem<T, 1>, Elem<T, 2>, Elem<T, 3>));
+
 // ------------------------------------------------------------------------------------------------
 // a universe built from the JSON presentation
 struct Universe {
@@ -96,10 +152,14 @@ struct Universe {
     dyns: Vec<DynIntrospectable>,
     /// per node: the type expressions it references directly, in the order add_references uses
     ref_exprs: Vec<Vec<Value>>,
+    /// node index of a tuple expression -> its tuple number; per tuple number the nodes of the elements
+    tuple_no: HashMap<usize, usize>,
+    elems: Vec<[usize; MAX_ARITY]>,
 }
 
+/// canonical string of a type expression / a CanonId: arrays are sets (or options), except the elements of a tuple
 fn key(t: &Value) -> String {
-    canonical_set_string(t)
+    canonical_string(t, &["es"])
 }
 
 fn s<'a>(v: &'a Value, k: &str) -> &'a str {
@@ -148,6 +208,7 @@ fn type_refs(t: &Value) -> Vec<Value> {
     match s(t, "k") {
         "option" | "box" | "vec" | "set" | "sender" | "receiver" | "array" => vec![t["a"].clone()],
         "map" | "result" => vec![t["a"].clone(), t["b"].clone()],
+        "tuple" => arr(&t["es"]).to_vec(),
         _ => vec![],
     }
 }
@@ -179,7 +240,7 @@ impl Universe {
         let rord = s(p, "rord");
         let real = s(p, "impl") == "real";
         let docs = Docs(s(p, "docs"));
-        let mut u = Universe { index: HashMap::new(), exprs: vec![], nodes: vec![], dyns: vec![], ref_exprs: vec![] };
+        let mut u = Universe { index: HashMap::new(), exprs: vec![], nodes: vec![], dyns: vec![], ref_exprs: vec![], tuple_no: HashMap::new(), elems: vec![] };
         let kinds: HashMap<String, String> = defs.iter().map(|d| (key(&ext(s(d, "schema"), s(d, "name"))), s(d, "k").to_owned())).collect();
 
         // node numbering: definitions in declaration order, then every type expression in order of first appearance
@@ -197,6 +258,19 @@ impl Universe {
             i += 1;
         }
         assert!(u.exprs.len() <= SLOTS, "driver: universe needs {} slots", u.exprs.len());
+        for i in defs.len()..u.exprs.len() {
+            if s(&u.exprs[i], "k") == "tuple" {
+                let es = arr(&u.exprs[i]["es"]);
+                assert!((1..=MAX_ARITY).contains(&es.len()), "driver: tuple arity {}", es.len());
+                let mut nodes = [usize::MAX; MAX_ARITY];
+                for (p, e) in es.iter().enumerate() {
+                    nodes[p] = u.index[&key(e)];
+                }
+                u.tuple_no.insert(i, u.elems.len());
+                u.elems.push(nodes);
+            }
+        }
+        assert!(u.elems.len() <= TUPLES, "driver: universe needs {} tuple types", u.elems.len());
 
         // which DynIntrospectable serves a node
         let dyns: Vec<DynIntrospectable> = (0..u.exprs.len()).map(|i| if real && i >= defs.len() { u.real_dyn(i) } else { slot(i) }).collect();
@@ -205,9 +279,16 @@ impl Universe {
         // layouts
         let lex = |t: &Value| lexical_id(t, &kinds);
         for i in 0..u.exprs.len() {
-            let layout = if i < defs.len() { def_layout(&defs[i], &lex, &docs) } else { builtin_layout(&u.exprs[i], &lex).into() };
+            let is_tuple = i >= defs.len() && s(&u.exprs[i], "k") == "tuple";
+            let layout = if i < defs.len() {
+                def_layout(&defs[i], &lex, &docs)
+            } else if is_tuple {
+                tuple_layout(&u.exprs[i], &lex)
+            } else {
+                builtin_layout(&u.exprs[i], &lex).into()
+            };
             let refs = u.ref_exprs[i].iter().map(|r| u.dyns[u.index[&key(r)]]).collect();
-            u.nodes.push(Node { layout, refs });
+            u.nodes.push(Node { layout, lex: is_tuple.then(|| lex(&u.exprs[i])), refs });
         }
         u
     }
@@ -267,12 +348,23 @@ impl Universe {
                 "u32" => real_map_u32(child("b").unwrap()),
                 _ => slot(i),
             },
+            "tuple" => {
+                let n = self.tuple_no[&i];
+                match arr(&t["es"]).len() {
+                    1 => real_tuple1(n),
+                    2 => real_tuple2(n),
+                    3 => real_tuple3(n),
+                    4 => real_tuple4(n),
+                    _ => slot(i),
+                }
+            }
             _ => slot(i),
         }
     }
 
     fn install(&self) {
         REG.with(|r| *r.borrow_mut() = self.nodes.clone());
+        ELEMS.with(|e| *e.borrow_mut() = self.elems.clone());
     }
 
     fn dyn_of(&self, t: &Value) -> DynIntrospectable {
@@ -312,6 +404,18 @@ fn lexical_id(t: &Value, kinds: &HashMap<String, String>) -> LexicalId {
         "map" => LexicalId::map(a(), b()),
         "result" => LexicalId::result(a(), b()),
         "array" => LexicalId::array(a(), num(&t["len"], "lit")),
+        "tuple" => {
+            // the lexical id of a generic custom type: schema, name and the ids of the type arguments
+            let es: Vec<LexicalId> = arr(&t["es"]).iter().map(|e| lexical_id(e, kinds)).collect();
+            let name = format!("Tuple{}", es.len());
+            match es[..] {
+                [a] => LexicalId::custom_generic("std", name, &[a]),
+                [a, b] => LexicalId::custom_generic("std", name, &[a, b]),
+                [a, b, c] => LexicalId::custom_generic("std", name, &[a, b, c]),
+                [a, b, c, d] => LexicalId::custom_generic("std", name, &[a, b, c, d]),
+                _ => panic!("driver: tuple arity {}", es.len()),
+            }
+        }
         "ext" => {
             if kinds.get(&key(t)).map(String::as_str) == Some("service") {
                 LexicalId::service(s(t, "schema"), s(t, "name"))
@@ -356,6 +460,16 @@ fn builtin_layout(t: &Value, lex: &dyn Fn(&Value) -> LexicalId) -> ir::BuiltInTy
         "array" => B::Array(ir::ArrayTypeIr::new(lex(&t["a"]), num(&t["len"], "lit"))),
         k => panic!("driver: not a built-in type: {k}"),
     }
+}
+
+/// the layout of a tuple as SchemaModel!TupleDef describes it: struct std::TupleN, required fields field<i> @ i
+fn tuple_layout(t: &Value, lex: &dyn Fn(&Value) -> LexicalId) -> ir::LayoutIr {
+    let es = arr(&t["es"]);
+    let mut b = ir::StructIr::builder("std", format!("Tuple{}", es.len()));
+    for (i, e) in es.iter().enumerate() {
+        b = b.field(ir::FieldIr::builder(i as u32, format!("field{i}"), true, lex(e)).finish());
+    }
+    b.finish().into()
 }
 
 /// the IR of a definition through the public builders, members inserted in the order of the presentation
@@ -459,6 +573,9 @@ fn layout_type_ids(l: &Layout) -> Vec<TypeId> {
 // ------------------------------------------------------------------------------------------------
 struct Computed {
     type_id: Option<TypeId>,
+    /// number of tuple types of the universe; how many of them are served by the real impls of aldrin-core
+    tuples: usize,
+    real_tuples: usize,
 }
 
 fn judge(v: &Value, viol: &mut Findings, roundtrips: &mut u64, refs_checked: &mut u64) -> Computed {
@@ -475,6 +592,8 @@ fn judge(v: &Value, viol: &mut Findings, roundtrips: &mut u64, refs_checked: &mu
     };
     universe.install();
     let root_dyn = universe.dyn_of(&root);
+    let tuples = universe.elems.len();
+    let real_tuples = if s(&v["P"], "impl") == "real" { tuples } else { 0 };
 
     let r = guarded(|| {
         let t1 = TypeId::compute_from_dyn(root_dyn);
@@ -489,7 +608,7 @@ fn judge(v: &Value, viol: &mut Findings, roundtrips: &mut u64, refs_checked: &mu
     let (t1, t2, intro, ser_ok, back, direct) = match r {
         Err(m) => {
             viol.add(&format!("I1 panic while computing the id / introspection record: {}", m.chars().take(160).collect::<String>()), case());
-            return Computed { type_id: None };
+            return Computed { type_id: None, tuples, real_tuples };
         }
         Ok(x) => x,
     };
@@ -524,7 +643,7 @@ fn judge(v: &Value, viol: &mut Findings, roundtrips: &mut u64, refs_checked: &mu
         }
         _ => viol.add("I3 the introspection record does not serialize / deserialize", case()),
     }
-    Computed { type_id: Some(t1) }
+    Computed { type_id: Some(t1), tuples, real_tuples }
 }
 
 /// CanonId with the aspects the statement does not list masked (service uuid and version)
@@ -567,14 +686,18 @@ fn main() {
             let mut viol = Findings::default();
             let mut drift = Findings::default();
             let (mut roundtrips, mut refs_checked, mut pinned_ok, mut pinned_checked) = (0u64, 0u64, 0u64, 0u64);
+            let (mut tuple_cases, mut real_tuple_cases, mut max_tuples) = (0u64, 0u64, 0usize);
             let mut ids: Vec<Option<TypeId>> = Vec::new();
             let mut keys: Vec<String> = Vec::new();
             let mut by_op: BTreeMap<String, u64> = BTreeMap::new();
             for (n, v) in vectors.iter().enumerate() {
                 let c = judge(v, &mut viol, &mut roundtrips, &mut refs_checked);
                 ids.push(c.type_id);
+                tuple_cases += (c.tuples > 0) as u64;
+                real_tuple_cases += (c.real_tuples > 0) as u64;
+                max_tuples = max_tuples.max(c.tuples);
                 // binding sanity: a corrupted expected description must be noticed
-                keys.push(if (n as u64) < corrupt { format!("corrupted-{n}") } else { canonical_set_string(&v["canon"]) });
+                keys.push(if (n as u64) < corrupt { format!("corrupted-{n}") } else { key(&v["canon"]) });
                 *by_op.entry(s(v, "op").to_owned()).or_insert(0) += 1;
                 if s(v, "op") == "base" {
                     if let (Some(want), Some(got)) = (pinned.get(format!("{}/{}", s(&v["root"], "schema"), s(&v["root"], "name"))).and_then(Value::as_str), c.type_id) {
@@ -645,7 +768,7 @@ fn main() {
                     if idx.iter().any(|i| named.contains(i)) {
                         continue;
                     }
-                    let masked: BTreeSet<String> = idx.iter().map(|&i| canonical_set_string(&mask_unlisted(&vectors[i]["canon"]))).collect();
+                    let masked: BTreeSet<String> = idx.iter().map(|&i| key(&mask_unlisted(&vectors[i]["canon"]))).collect();
                     let payload = json!({"case": small(&vectors[idx[0]]), "other": small(&vectors[idx[1]])});
                     if masked.len() > 1 || keys[idx[0]].starts_with("corrupted") || keys[idx[1]].starts_with("corrupted") {
                         viol.add("I7 two presentations with different wire-relevant descriptions have the same id", payload);
@@ -666,6 +789,7 @@ fn main() {
                 .collect();
             json!({"cases": vectors.len(), "by_op": by_op, "classes": distinct_keys.len(), "distinct_type_ids": distinct_ids.len(),
                    "roundtrips_ok": roundtrips, "layout_references_checked": refs_checked, "pinned_checked": pinned_checked, "pinned_ok": pinned_ok,
+                   "tuple_cases": tuple_cases, "real_tuple_cases": real_tuple_cases, "max_tuple_types": max_tuples,
                    "violation_count": viol.count(), "violations_by_why": viol.by_why_json(), "violations": viol.first,
                    "drift_count": drift.count(), "drifts_by_why": drift.by_why_json(), "drifts": drift.first, "samples": samples})
         })
